@@ -3,6 +3,7 @@ package main
 import (
 	"fmt"
 	"regexp"
+	"sort"
 	"strings"
 
 	"golang.org/x/tools/go/ssa"
@@ -59,14 +60,19 @@ func init() {
 					continue
 				}
 				fa := e.FA(fn)
+				// the cases of the result (one per return, or per incoming value of a single-exit result variable),
+				// compared as a set
 				var got []string
-				for _, ret := range Returns(fn) {
-					got = append(got, ordinalRe.ReplaceAllString(fa.Term(ret.Results[0]).String(), ""))
+				for _, rc := range fa.ReturnCases(0) {
+					got = append(got, ordinalRe.ReplaceAllString(rc.T.String(), ""))
 				}
-				ok := len(got) == len(s.rets)
+				sort.Strings(got)
+				want := append([]string{}, s.rets...)
+				sort.Strings(want)
+				ok := len(got) == len(want)
 				if ok {
 					for i := range got {
-						if got[i] != s.rets[i] {
+						if got[i] != want[i] {
 							ok = false
 						}
 					}
@@ -203,12 +209,29 @@ func init() {
 			for _, c := range CallsTo(fn, "sdk.DecCoins.Sub") {
 				d, a := decCoinOf(argT(fa, c, 0))
 				if d != nil && a.IsCall("sdk.DecCoins.AmountOf") {
-					gt := fa.HasGuard(c, func(g Guard) bool {
-						return g.Pos && g.Cond.IsCall("math.LegacyDec.GT") && strings.HasSuffix(g.Cond.Args[0].String(), ".Amount") && g.Cond.Args[1].Eq(a)
-					})
-					lt := fa.HasGuard(c, func(g Guard) bool {
-						return g.Pos && g.Cond.IsCall("math.LegacyDec.LT") && g.Cond.Args[0].IsCall("math.LegacyDec.Sub") && g.Cond.Args[0].Args[1].Eq(a) && g.Cond.Args[1].IsCall("math.LegacyOneDec")
-					})
+					// decided on relations, so that GT/LT, their negated LTE/GTE forms and swapped operands all count
+					gt, lt := false, false
+					for _, rel := range fa.FactsAt(c) {
+						if rel.TA == nil || rel.TB == nil {
+							continue
+						}
+						ta, tb, op := rel.TA, rel.TB, rel.Op
+						if ta.Eq(a) {
+							ta, tb, op = tb, ta, flipOp[op]
+						}
+						// requested > available
+						if op == ">" && tb.Eq(a) && strings.HasSuffix(ta.String(), ".Amount") {
+							gt = true
+						}
+						// requested - available < 1
+						ta, tb, op = rel.TA, rel.TB, rel.Op
+						if ta.IsCall("math.LegacyOneDec") {
+							ta, tb, op = tb, ta, flipOp[op]
+						}
+						if op == "<" && tb.IsCall("math.LegacyOneDec") && ta.IsCall("math.LegacyDec.Sub") && ta.Args[1].Eq(a) && strings.HasSuffix(ta.Args[0].String(), ".Amount") {
+							lt = true
+						}
+					}
 					clamp = gt && lt
 					if !clamp {
 						r.Bad(k, "clamp branch", "the available amount is subtracted (result clamped to zero) on a path that is not `requested > available and the excess is below one share`", nil, r.P(c))
